@@ -2150,7 +2150,36 @@ def view_validation(repo, tier):
     return {"obligations": obls, "functions": []}
 
 
-EXTRA = [policy, view_validation]
+def native_sweep(repo, tier):
+    """BOUNDED (never counted as discharged): the native replayer's whole input grammar is run against the real code on
+    every check, whatever the deductive obligations say -- written compound files (every marker as stream / storage / other
+    spelling), ZIP flag bits per member, BIFF chains, ODF manifests, 7z coder chains incl. encrypted headers, EPUB
+    encryption.xml / rights.xml, stored RC4 / AES PDFs (incl. block-aligned streams) read in fresh processes, CryptAES round
+    trips for every length 0..49, protected fixtures through every entry point.  A deviation is a reproduced failing input."""
+    import json
+    import os
+    import subprocess
+    root = os.path.dirname(os.path.dirname(os.path.abspath(__file__)))
+    oid = "C08/native::sweep/bounded#encrypted-rejected-before-any-result-and-plain-never-rejected"
+    try:
+        p = subprocess.run(["/venv/bin/python", os.path.join(root, "replay", "run.py")], input=json.dumps({"property": "C08", "obligation": oid, "repo": repo}),
+                           capture_output=True, text=True, timeout=900, env=dict(os.environ, VERIF_REPO=repo))
+        res = json.loads([l for l in p.stdout.splitlines() if l.startswith("{")][-1])
+    except Exception as e:  # noqa
+        res = {"reproduced": False, "note": "sweep did not run: " + str(e)[:200], "failed_to_run": True}
+    if res.get("reproduced"):
+        o = ground_obligation(oid, False, f"{res.get('target')}: inputs {json.dumps(res.get('inputs'), default=str)[:300]} expected {res.get('expected')} "
+                              f"observed {str(res.get('observed'))[:200]}", "replay/C08.py", kind="bounded", backend="native")
+    else:
+        o = ground_obligation(oid, not res.get("failed_to_run") and "crashed" not in str(res.get("note", "")), str(res.get("note", ""))[:300],
+                              "replay/C08.py", kind="bounded", backend="native", definite=False)
+        if o["status"] == "proved":
+            o["status"] = "bounded-ok"
+    o["bounded"] = True
+    return {"obligations": [o], "functions": []}
+
+
+EXTRA = [policy, view_validation, native_sweep]
 
 
 def post_report(c, rep):
